@@ -235,3 +235,66 @@ def rule_update(ctx, R, fu, parallel=False):
     ok = any(isinstance(n, ast.Assign) and ast.unparse(n.targets[0]) == "contingency_results[element][var]" and ast.unparse(n.value) == "val"
              for n in ast.walk(fu.node))
     ctx.ob(R, f"{mod}::{qn}::n0-plain", ok, "N-0 branch stores the plain result values under the un-prefixed key", fu.loc())
+
+
+def rule_options(ctx, R, fi, worker=None):
+    """N-1 cases are evaluated with pf_options_nminus1, the base case with pf_options; a filtering comprehension that rebinds one of
+    the two dictionaries iterates over that same dictionary; every case list skips elements that are out of service already."""
+    import ast
+    from ppsa.astutil import norm
+    mod = fi.module.name
+    # 1. self-sourced filtering
+    for st in ast.walk(fi.node):
+        if isinstance(st, ast.Assign) and len(st.targets) == 1 and isinstance(st.targets[0], ast.Name) and st.targets[0].id in ("pf_options", "pf_options_nminus1") \
+                and isinstance(st.value, ast.DictComp):
+            src = norm(st.value.generators[0].iter, 60).replace(" ", "")
+            ok = src == f"{st.targets[0].id}.items()"
+            ctx.ob(R, f"{mod}::{fi.qualname}::filter:{st.targets[0].id}", ok,
+                   f"{st.targets[0].id} filtered from itself" if ok else
+                   f"`{st.targets[0].id} = {{... for ... in {src}}}`: the options of the other case class are used", fi.loc(st))
+    # 2. evaluation calls
+    def star_names(call):
+        return [norm(k.value, 40) for k in call.keywords if k.arg is None]
+    n = 0
+    for node in ast.walk(fi.node):
+        if isinstance(node, ast.Try):
+            for c in ast.walk(node):
+                if isinstance(c, ast.Call) and norm(c.func, 60) == "contingency_evaluation_function":
+                    n += 1
+                    ok = "pf_options_nminus1" in star_names(c) and "pf_options" not in star_names(c)
+                    ctx.ob(R, f"{mod}::{fi.qualname}::nminus1-call#{n}", ok, f"outage evaluated with **{star_names(c)}", fi.loc(c))
+    tries = {id(c) for t in ast.walk(fi.node) if isinstance(t, ast.Try) for c in ast.walk(t)}
+    for c in ast.walk(fi.node):
+        if isinstance(c, ast.Call) and norm(c.func, 60) == "contingency_evaluation_function" and id(c) not in tries:
+            n += 1
+            ok = "pf_options" in star_names(c) and "pf_options_nminus1" not in star_names(c)
+            ctx.ob(R, f"{mod}::{fi.qualname}::base-call#{n}", ok, f"base case evaluated with **{star_names(c)}", fi.loc(c))
+    if worker is not None:
+        for c in ast.walk(worker.node):
+            if isinstance(c, ast.Call) and norm(c.func, 60) == "contingency_evaluation_function":
+                n += 1
+                ok = star_names(c)[:1] == ["pf_options_nminus1"]
+                ctx.ob(R, f"{mod}::{worker.qualname}::worker-call", ok, f"worker evaluates with **{star_names(c)}", worker.loc(c))
+        for c in ast.walk(fi.node):
+            if isinstance(c, ast.Call) and norm(c.func, 20) == "partial" and c.args and norm(c.args[0], 40) == worker.qualname:
+                kw = {k.arg: norm(k.value, 40) for k in c.keywords if k.arg}
+                ok = kw.get("pf_options_nminus1") == "pf_options_nminus1" and "pf_options" not in kw
+                ctx.ob(R, f"{mod}::{fi.qualname}::worker-binding", ok, f"partial binds {kw}", fi.loc(c))
+    # 3. every loop over the cases skips elements that are already out of service
+    k = 0
+    for lp in ast.walk(fi.node):
+        if isinstance(lp, ast.For) and norm(lp.iter, 40).replace(" ", "").replace('"', "'") == "val['index']":
+            k += 1
+            guard = [x for x in lp.body if isinstance(x, ast.If) and "in_service" in norm(x.test, 80)]
+            ctx.ob(R, f"{mod}::{fi.qualname}::case-filter#{k}", bool(guard),
+                   "cases of elements that are out of service are skipped" if guard else
+                   "the loop over the cases does not test in_service: a switched-off element is evaluated as an outage (its N-0 values enter "
+                   "the N-1 extremes)", fi.loc(lp))
+    for x in ast.walk(fi.node):
+        if isinstance(x, ast.Assign) and norm(x.targets[0], 10) == "tasks" and isinstance(x.value, ast.ListComp):
+            k += 1
+            ok = any("in_service" in norm(i, 80) for g in x.value.generators for i in g.ifs)
+            ctx.ob(R, f"{mod}::{fi.qualname}::case-filter#{k}", ok, "task list built by a comprehension " + ("with" if ok else "without") + " the in_service filter", fi.loc(x))
+    if k < 1:
+        ctx.fail(f"{fi.qualname}: no loop over the N-1 cases found")
+    return n
